@@ -16,7 +16,7 @@ CLAIMED = {
 
 CLAIMED["C18"] = dict(
     technique="static analysis: variant-set dataflow over MIR (finite evaluation of the transition / status / min_status match tables over all discriminant tuples), who-may-write census and forward-transition classification of every write to the query-state map, avoid-reachability (removed => re-inserted), dominator ordering of the RAII guard",
-    text="The transition relation is evaluated over all 36 variant pairs and accepted only when strictly forward; every insert into the map of running queries is a transition() result, an identity re-insert or a forward (from<to) replacement with `from` refined per path; every removal re-inserts on all paths except the designated forgetting ones; the new_query cleanup guard covers every fallible step; min_status is the meet for all 25 pairs. Decides the store/transition discipline, not the absence of panics over arbitrary histories.",
+    text="The transition relation is evaluated over all 36 variant pairs and accepted only when strictly forward; every insert into the map of running queries is a transition() result, an identity re-insert or a forward (from<to) replacement with `from` refined per path; every removal re-inserts on all paths except the designated forgetting ones; the new_query cleanup guard covers every fallible step; min_status is the meet for all 25 pairs and the leader folds it over every differing shard (carried accumulator); both request handlers route each RouteId to exactly its own Processor operation. Decides the store/transition discipline, not the absence of panics over arbitrary histories.",
     ref="§3 C18")
 
 CLAIMED["C20"] = dict(
@@ -36,7 +36,7 @@ CLAIMED["C15"] = dict(
 
 CLAIMED["C16"] = dict(
     technique="static analysis: signature/ownership facts from the type-checked program, dominator-based guard polarity with expression-shape extraction (readiness test, total_count formula), who-may-write census of pending_count, ordering of batch removal, verdict dataflow in both arms of the returned future",
-    text="Ready::Yes is constructed only when pending_count == min(records_per_batch, total - first_record_in_batch), after the batch left the deque, and owns the batch (FnOnce validator => validated at most once); the validating caller publishes result.is_ok() of the settled validation on the batch's own channel and returns that result; waiters read the verdict only after changed() settled and return Ok only if it is true; misuse paths (record twice, offset beyond batch, batch already validated, record past total) diverge or return an error before any state update. Decides wiring and guards, not interleavings of concurrent callers.",
+    text="Ready::Yes is constructed only when pending_count == min(records_per_batch, total - first_record_in_batch), after the batch left the deque, and owns the batch (FnOnce validator => validated at most once); the validating caller publishes result.is_ok() of the settled validation on the batch's own channel and returns that result; waiters read the verdict only after changed() settled and return Ok only if it is true; misuse paths (record twice, offset beyond batch, batch already validated, record past total) diverge or return an error before any state update; the batch a record is filed under, its position in it and the batch's release threshold, evaluated from the extracted expressions on a grid of (batch size, first batch, total, record), equal r div b, r mod b and min(b, T - (r div b) b); every batch created in one call gets its own verdict channel. Decides wiring and guards, not interleavings of concurrent callers.",
     ref="§3 C16")
 
 CLAIMED["C02"] = dict(
@@ -84,12 +84,12 @@ CLAIMED["C06"] = dict(
 
 CLAIMED["C09"] = dict(
     technique="static analysis: table over every Serializable impl with compiler-evaluated Size/BITS/PRIME (fallible iff the value space is partial), validity-guard dominance in each fallible decoder, deviant-sibling detection, field-order/offset symmetry of the info codecs",
-    text="Decides the acceptance clauses: sizes hold their BITS; a decoder is infallible exactly when every byte string of its size is canonical; every fallible decoder builds its value only under its validity predicate (v < PRIME by interval analysis, Boolean byte <= 1, zero padding, decompress()); HybridEventType::try_from inverts `as u8`; the info codecs read what they write at the same offsets and widths. One deviant is reported as a known finding (Fp25519 reduces instead of rejecting). Round-trip equality for all values and the bit-matrix transposes are numerical and not decided.",
+    text="Decides the acceptance clauses: sizes hold their BITS; a decoder is infallible exactly when every byte string of its size is canonical; every fallible decoder builds its value only under its validity predicate (v < PRIME by interval analysis, Boolean byte <= 1, zero padding, decompress()); HybridEventType::try_from inverts `as u8`; the info codecs read what they write at the same offsets and widths. One deviant is reported as a known finding (Fp25519 reduces instead of rejecting); every other bytes-to-value path of a type with padding bits (TryFrom<&[u8]>, From<raw storage>) is discharged by a mask, a padding check or a length guard. Round-trip equality for all values and the bit-matrix transposes are numerical and not decided.",
     ref="§3 C09")
 
 CLAIMED["C13"] = dict(
     technique="static analysis: def-use provenance of map keys and transport routes from one ChannelId, guard dominance of the record-count check, close-at-last pairing with await settlement, WAKE-1 may-analysis over gateway/transport poll functions, variant-set dataflow over Result-item stream adapters, finite evaluation of the extracted capacity/read-size arithmetic over a parameter grid",
-    text="Decides keying and bounds: a sender is stored under the full (peer, gate) channel id and the transport route is built from the two halves of the same id; receivers build their route from the id they are keyed by, on the matching transport and map; sending at or beyond the declared count is refused before anything is written and the channel is closed at i+1 exactly after the last record; poll functions never return Pending without a registered waker; receive-path stream adapters pass errors on; the capacity / read-size formula of SendChannelConfig::new_with is evaluated over a grid of (active = 2^k, record size, configured read size) and yields a read size that is a multiple of the record size and a divisor of the capacity in both arms, with the two runtime assertions present. Delivery, ordering within the window and deadlock freedom are not decided.",
+    text="Decides keying and bounds: a sender is stored under the full (peer, gate) channel id and the transport route is built from the two halves of the same id; receivers build their route from the id they are keyed by, on the matching transport and map; sending at or beyond the declared count is refused before anything is written and the channel is closed at i+1 exactly after the last record; poll functions never return Pending without a registered waker; receive-path stream adapters pass errors on; the capacity / read-size formula of SendChannelConfig::new_with is evaluated over a grid of (active = 2^k, record size, configured read size) and yields a read size that is a multiple of the record size and a divisor of the capacity in both arms, with the two runtime assertions present; for the no-deadlock clause the send / receive buffers' waker discipline is decided as in C14 (no Pending without a registered waker, every state change that can unblock the other side reaches its wake on all paths, the latest waker is kept). Delivery, ordering within the window and deadlock freedom over all schedules are not decided.",
     ref="§3 C13")
 
 CLAIMED["C17"] = dict(
@@ -104,7 +104,7 @@ CLAIMED["C07"] = dict(
 
 CLAIMED["C01"] = dict(
     technique="static analysis: variant-arm evaluation of the pair-grouping transition table, call-shape and def-use checks of the grouping map, operand/field wiring of the two pair sums, dominator-ordered must-pass-through of the pipeline stages with await settlement and data-flow between stages, collective-participation rule (no Ok return that bypasses a cross-shard stage)",
-    text="Decides only the structural clauses of the statement: a match key contributes iff it occurs exactly twice (MatchEntry Single->Pair->MoreThanTwo table, into_pair only for Pair); pairs are formed in an ordered map keyed by the report's own match key; a pair's breakdown key and value are the sums of the fields of the same name of its two reports under distinct steps with the pair index as record id; hybrid_protocol runs pad, shuffle, PRF+reshard, pair aggregation, breakdown reveal, finalize in that order, each awaited, error-propagated and fed by its predecessor; the cross-shard merge of histograms is the saturating addition; every shard takes part in every cross-shard stage (one known finding: early return on empty local input). The numerical equality of the histogram with the plaintext reference over all inputs, saturation arithmetic and DP noise are NOT decided.",
+    text="Decides only the structural clauses of the statement: a match key contributes iff it occurs exactly twice (MatchEntry Single->Pair->MoreThanTwo table, into_pair only for Pair); pairs are formed in an ordered map keyed by the report's own match key; a pair's breakdown key and value are the sums of the fields of the same name of its two reports under distinct steps with the pair index as record id; hybrid_protocol runs pad, shuffle, PRF+reshard, pair aggregation, breakdown reveal, finalize in that order, each awaited, error-propagated and fed by its predecessor; the cross-shard merge of histograms is the saturating addition; every shard takes part in every cross-shard stage (one known finding: early return on empty local input); the PRF stage evaluates the PRF of each row's own match key under a key shared by all shards, keeps value / breakdown key next to it and routes by the PRF value alone; a partial chunk is never labelled as holding zero rows. The numerical equality of the histogram with the plaintext reference over all inputs, saturation arithmetic and DP noise are NOT decided.",
     ref="§3 C01")
 
 NOT_APPLICABLE = {
